@@ -119,6 +119,29 @@ def _locate(fdef, where):
         if where["index"] >= len(elts):
             raise Untranslatable("unpacking of %s() has no element %d" % (where["unpack_call"], where["index"]))
         return idx, elts[where["index"]]
+    if "unpack_attr" in where:
+        hits = [(idx, s) for idx, s in enumerate(fdef.body)
+                if isinstance(s, ast.Assign) and isinstance(s.value, ast.Attribute) and _dotted(s.value) == where["unpack_attr"]]
+        if len(hits) != 1 or len(hits[0][1].targets) != 1 or not isinstance(hits[0][1].targets[0], ast.Tuple):
+            raise Untranslatable("expected exactly one tuple-unpacking of %s" % where["unpack_attr"])
+        idx, s = hits[0]
+        elts = s.targets[0].elts
+        if where["index"] >= len(elts):
+            raise Untranslatable("unpacking of %s has no element %d" % (where["unpack_attr"], where["index"]))
+        return idx, elts[where["index"]]
+    if "raise_test" in where:
+        # the condition of the top-level `if` whose own body raises the named exception
+        hits = []
+        for idx, s in enumerate(fdef.body):
+            if isinstance(s, ast.If) and not s.orelse:
+                for b in s.body:
+                    if isinstance(b, ast.Raise) and b.exc is not None:
+                        nm = _dotted(b.exc.func) if isinstance(b.exc, ast.Call) else _dotted(b.exc)
+                        if nm == where["raise_test"]:
+                            hits.append((idx, s.test))
+        if len(hits) != 1:
+            raise Untranslatable("expected exactly one top-level `if ...: raise %s`, found %d" % (where["raise_test"], len(hits)))
+        return hits[0]
     raise Untranslatable("unknown locator %r" % (where,))
 
 
@@ -201,6 +224,71 @@ def slice_function(fdef, sl):
     return new, {nm: types[nm] for nm in order}
 
 
+class _Subst(ast.NodeTransformer):
+    """p[<key expr>] -> Name p__key, with the loop variable replaced by a literal key."""
+
+    def __init__(self, dict_name, loop_var, key, fields):
+        self.d, self.v, self.k, self.fields = dict_name, loop_var, key, fields
+
+    def visit_Subscript(self, node):
+        if isinstance(node.value, ast.Name) and node.value.id == self.d:
+            sl = node.slice
+            key = self.k if (isinstance(sl, ast.Name) and sl.id == self.v) else sl.value if isinstance(sl, ast.Constant) else None
+            if key not in self.fields:
+                raise Untranslatable("subscript of %s with %r is not a declared field" % (self.d, key))
+            return ast.copy_location(ast.Name(id="%s__%s" % (self.d, key), ctx=node.ctx), node)
+        return self.generic_visit(node)
+
+    def visit_Name(self, node):
+        if node.id == self.v:
+            raise Untranslatable("loop variable %s used other than as a key of %s" % (self.v, self.d))
+        return node
+
+
+def unroll_function(fdef, un):
+    """`for k in (<literal keys>): d[k] <op>= <expr>` on a dict parameter with a fixed key set, as a record update:
+    the unique such loop of the function is unrolled key by key over per-field locals and the updated record is returned."""
+    d = un["dict_param"]
+    fields = [f for f, _ in un["fields"]]
+    if d not in {a.arg for a in fdef.args.args}:
+        raise Untranslatable("parameter %s not found" % d)
+    loops = [n for n in ast.walk(fdef) if isinstance(n, ast.For)]
+    if len(loops) != 1:
+        raise Untranslatable("expected exactly one for-loop, found %d" % len(loops))
+    loop = loops[0]
+    if not (isinstance(loop.target, ast.Name) and isinstance(loop.iter, (ast.Tuple, ast.List)) and not loop.orelse
+            and all(isinstance(e, ast.Constant) and isinstance(e.value, str) for e in loop.iter.elts)):
+        raise Untranslatable("the loop is not `for k in (<literal keys>)`")
+    stores = _stores(fdef)
+    body = []
+    for f in fields:
+        body.append(ast.Assign(targets=[ast.Name(id="%s__%s" % (d, f), ctx=ast.Store())],
+                               value=ast.Subscript(value=ast.Name(id=d, ctx=ast.Load()), slice=ast.Constant(value=f), ctx=ast.Load())))
+    free = set()
+    for e in loop.iter.elts:
+        for st in loop.body:
+            if not isinstance(st, (ast.Assign, ast.AugAssign)):
+                raise Untranslatable("loop body statement %s" % type(st).__name__)
+            import copy
+            st2 = _Subst(d, loop.target.id, e.value, fields).visit(copy.deepcopy(st))
+            body.append(st2)
+            free |= {n for n in _loads(st2) if not n.startswith(d + "__")}
+    scal = sorted(free)
+    for nm in scal:
+        if stores.get(nm, 0) > 1:
+            raise Untranslatable("%s used in the loop is assigned more than once" % nm)
+    body.append(ast.Return(value=ast.Call(func=ast.Name(id="__mk", ctx=ast.Load()),
+                                         args=[ast.Name(id="%s__%s" % (d, f), ctx=ast.Load()) for f in fields], keywords=[])))
+    new = ast.FunctionDef(name=fdef.name, args=ast.arguments(posonlyargs=[], args=[ast.arg(arg=d)] + [ast.arg(arg=n) for n in scal],
+                                                            kwonlyargs=[], kw_defaults=[], defaults=[]),
+                          body=body, decorator_list=[], returns=None, type_params=[])
+    ast.copy_location(new, fdef)
+    ast.fix_missing_locations(new)
+    params = {d: ["R", un["record"]]}
+    params.update({n: un["scalar_type"] for n in scal})
+    return new, params
+
+
 def translate_module(repo, modname, mod):
     out = ["(* GENERATED by tools/py2coq.py (+ harness/c20_gen.py front end) from the current source tree -- do not edit. *)",
            "From Coq Require Import ZArith Bool List."]
@@ -216,6 +304,12 @@ def translate_module(repo, modname, mod):
                 sl = spec["slice"]
                 fdef2, spec["params"] = slice_function(fdef, sl)
                 what = "backward slice of %s" % json.dumps(sl["outputs"])
+            elif "unroll" in spec:
+                un = spec["unroll"]
+                fdef2, spec["params"] = unroll_function(fdef, un)
+                spec["calls"] = dict(spec.get("calls", {}))
+                spec["calls"]["__mk"] = [un["ctor"], [t for _, t in un["fields"]], ["R", un["record"]]]
+                what = "unrolled key loop on %s" % un["dict_param"]
             else:
                 fdef2 = fdef
             spec["params"] = {k: _tup(v) for k, v in spec["params"].items()}
